@@ -28,7 +28,7 @@ def budget(tier):
 
 @st.composite
 def _case(draw):
-    prof = S.profile(dep_only_file=0.2, max_methods=4, max_services=3, max_files=3, p_subpackage=0.0, p_http=0.4, p_sig=0.2, p_routing=0.05, p_paged=0.15,
+    prof = S.profile(dep_only_file=0.2, extended_operations=0.25, max_methods=4, max_services=3, max_files=3, p_subpackage=0.0, p_http=0.4, p_sig=0.2, p_routing=0.05, p_paged=0.15,
                      p_lro=0.15, p_stream=0.1, p_dep_io=0.05, p_comment=0.02, max_messages=5, max_fields=5, p_resource=0.35, p_map=0.25,
                      p_nested=0.5, p_recursive=0.15)
     api = draw(S.apis(prof))
@@ -81,6 +81,10 @@ def strategy(tier):
 def run_case(case, rec):
     api, options, mode = case["api"], case["options"], case["mode"]
     kept = {tuple(k) for k in case["kept"]}
+    if mode == "omit":
+        # polling methods of operation services named by kept extended-operation RPCs stay although not listed
+        # (in internal mode nothing is dropped: they are internal like every other unlisted RPC)
+        kept = SEL.implied(api, kept)
     triples = [(f, s, m) for f, s, m in M.all_methods(api) if (f["package"], s["name"], m["name"]) in kept]
     allm = list(M.all_methods(api))
     rec.cls("mode:" + mode + (":" + case["invalid"] if case["invalid"] else ""))
@@ -107,7 +111,7 @@ def run_case(case, rec):
         frac = "all" if len(triples) == len(allm) else "some"
         if mode == "internal" or (frac == "some" and shared):
             rec.nontrivial([mode, frac, len({s['name'] for _, s, _ in allm}), shared, G.shape_classes(api)])
-        inner = dict(case["inner"], mode=mode, kept=case["kept"],
+        inner = dict(case["inner"], mode=mode, kept=sorted(list(k) for k in kept),
                      must_have=sorted(t for t in strict if t.startswith(root + ".")),
                      must_not=sorted(t for t in tops if t not in generous) if mode == "omit" else [])
         G.run_exerciser(ID, api, options, inner, res, req, d, rec)
